@@ -129,11 +129,8 @@ impl AtomKind {
     }
 
     /// Inverts configuration given if it and at least one implicit
-    /// hydrogen are present.
-    /// 
-    /// # Panics
-    /// 
-    /// Panics given a Configuration other than TH1 or TH2.
+    /// hydrogen are present. TH1/TH2 and AL1/AL2 (the pairs written `@`
+    /// and `@@`) are swapped; every other Configuration is left unchanged.
     pub fn invert_configuration(&mut self) {
         if let AtomKind::Bracket { hcount, configuration, .. } = self {
             let new_config = match configuration {
@@ -144,7 +141,9 @@ impl AtomKind {
                         match config {
                             Configuration::TH1 => Configuration::TH2,
                             Configuration::TH2 => Configuration::TH1,
-                            _ => unimplemented!("TODO: handle inversion for non-TH")
+                            Configuration::AL1 => Configuration::AL2,
+                            Configuration::AL2 => Configuration::AL1,
+                            _ => return
                         }
                     },
                     None => return
